@@ -63,12 +63,12 @@ Definition add_group (g : option (list ascii)) (unit_ns : Z) (acc : option Z) : 
 
 Definition parse_duration (s : string) : dres :=
   match chars s with
-  | [] => DPanic                                   (* s[0] on the empty string *)
+  | [] => DErr                                     (* fix F8: no 'P' prefix (was: s[0] on the empty string panicked) *)
   | c0 :: r0 =>
       let neg := Ascii.eqb c0 "-"%char in
       let body := if neg then r0 else c0 :: r0 in
       match body with
-      | [] => DPanic                               (* "-": s[1:] is empty, s[0] panics *)
+      | [] => DErr                                 (* "-": s[1:] is empty (was a panic before fix F8) *)
       | p :: r =>
           if negb (Ascii.eqb p "P"%char) then DErr else
           let (gy, r1) := group "Y"%char r in
